@@ -97,7 +97,7 @@ func loadSchema(path string) *Schema {
 		panic(err)
 	}
 	var raw struct {
-		Types    []map[string]json.RawMessage `json:"types"`
+		Types     []map[string]json.RawMessage `json:"types"`
 		Top       []string                     `json:"top"`
 		EnvIndex  map[string]int               `json:"envIndex"`
 		Resources []*ResourceSpec              `json:"resources"`
@@ -124,8 +124,12 @@ func loadSchema(path string) *Schema {
 						Alias string
 					}
 				} `json:"Union"`
-				Key    struct{ Name string `json:"name"` } `json:"Key"`
-				Params struct{ Name string `json:"name"` } `json:"Params"`
+				Key struct {
+					Name string `json:"name"`
+				} `json:"Key"`
+				Params struct {
+					Name string `json:"name"`
+				} `json:"Params"`
 			}
 			if err := json.Unmarshal(body, &d); err != nil {
 				panic(fmt.Sprint(kind, err))
